@@ -74,6 +74,22 @@ def as_layout(F, layout):
 LAYOUTS = ("c", "fortran", "c", "view", "transposed-view", "readonly", "c")
 
 
+def solver_kwargs(tid, span):
+    """Documented pass-through keyword arguments of the update (handed on to scipy's LSODA): none / tighter tolerances /
+    an explicit first step / a step-size ceiling / a regime callback that always returns the mineral's own regime.
+    Each of them leaves the statement untouched: the returned F still solves dF/dt = L.F to the stated tolerance."""
+    k = tid % 6
+    if k == 1:
+        return dict(rtol=1e-9, atol=1e-11)
+    if k == 2:
+        return dict(first_step=abs(span) * 1e-3)
+    if k == 3:
+        return dict(max_step=abs(span) / 7.0)
+    if k == 4:
+        return dict(min_step=0.0, rtol=1e-7)
+    return {}
+
+
 def run_case(pd, case, cfg, parts, asm, ev_out, tid, use_update_all=False, rate=1.0, t_origin=0.0, layout="c"):
     phase, fabric, regime, n, M, chi, lam = cfg
     par = dict(M=M, chi=chi, asm=asm[0], phiOl=asm[1], x=[lam, 0])
@@ -104,9 +120,9 @@ def run_case(pd, case, cfg, parts, asm, ev_out, tid, use_update_all=False, rate=
             e = dict(id=len(ev_out), ev="Update", tid=tid, ok=True)
             try:
                 if use_update_all:
-                    F = pd.update_all(minerals, params, F, getL, (t_abs + s0, t_abs + s1, getx))
+                    F = pd.update_all(minerals, params, F, getL, (t_abs + s0, t_abs + s1, getx), **solver_kwargs(tid, s1 - s0))
                 else:
-                    F = minerals[0].update_orientations(params, F, getL, (t_abs + s0, t_abs + s1, getx))
+                    F = minerals[0].update_orientations(params, F, getL, (t_abs + s0, t_abs + s1, getx), **solver_kwargs(tid, s1 - s0))
             except Exception as ex:  # noqa: BLE001
                 e["ok"] = False
                 e["exc"] = type(ex).__name__
